@@ -626,7 +626,9 @@ pub fn run(args: &Args) {
         }
     }
 
-    if args.replay.is_none() {
+    // the lookup stage is fixed: a replay of one of its cases runs all of it
+    let replay_kind: Option<String> = args.replay.as_ref().and_then(|p| std::fs::read_to_string(p).ok()).and_then(|t| serde_json::from_str::<Value>(&t).ok()).map(|v| v["case"]["kind"].as_str().unwrap_or("").to_string());
+    if replay_kind.as_deref().map_or(true, |k| k.starts_with("py-lookup")) {
         lookup_stage(&mut sink, args, &root, &pypkg);
     }
 
